@@ -493,8 +493,15 @@ class VectorT {
 
         /// compute L1 (Manhattan) norm
         Scalar l1_norm() const {
-            return std::accumulate(
-                    values_.cbegin() + 1, values_.cend(), values_[0]);
+            // not std::abs: Scalar may be an unsigned type
+            auto abs_val = [](const Scalar &s) {
+                return s < Scalar(0) ? static_cast<Scalar>(-s) : s;
+            };
+            return std::accumulate(values_.cbegin() + 1, values_.cend(),
+                    abs_val(values_[0]),
+                    [&abs_val](const Scalar &l, const Scalar &r) {
+                        return static_cast<Scalar>(l + abs_val(r));
+                    });
         }
 
         /// compute l8_norm
@@ -539,7 +546,8 @@ class VectorT {
 
         /// return arithmetic mean
         Scalar mean() const {
-            return l1_norm()/DIM;
+            return std::accumulate(
+                    values_.cbegin() + 1, values_.cend(), values_[0]) / DIM;
         }
 
         /// return absolute arithmetic mean
